@@ -1516,6 +1516,14 @@ func (x *g) corner(d int) string {
 		{5, "catch-var-same-name", "(function(){try{throw E}catch(e){var e=E}return e})()"},
 		{2022, "static-block-var", "{var sbv=E;class SK{static{var sbv=E}}$(sbv)}"},
 		{5, "with-builtins", "with({undefined:E,Infinity:E})$(undefined,Infinity)"},
+		{5, "comma-constant-condition", "{var V=0;var W=function(){V++;return V};$((W(),1)?E:E,(W(),0)?E:E,(W(),\"\")?E:E,(W(),null)?E:E,(W(),\"s\")?E:E,(W(),!0)?E:E);if(W(),1)$(V);else $(-V);if(W(),0)$(-V);$(V)}"},
+		{2020, "cond-same-or-coalesce", "(function(V,W){$(V?V:W??E,V?V:(W??E),V?V:W||E,V?V:W&&E)})(E,UNDEFNULL)"},
+		// literals only (LIT): with names kept the else block is dissolved into the switch (known finding), nothing outside may see its names
+		{2015, "switch-else-lexical", "(function(pa,pb){var lc=LIT;switch(pa){case 1:if(pb>1e9){break}else{let e=LIT,t=LIT,n=LIT;$(e,t,n,pa,pb,lc)}case 2:{let r=LIT;$(r,pa)}}})(1,LIT)"},
+		{2015, "switch-else-lexical", "(function(pa){let lo=LIT;switch(pa){case 1:if(lo>1e9){return}else{const t=LIT,e=LIT;class n{};$(t,e,typeof n,pa,lo)}}})(1)"},
+		{2015, "param-default-free-var", "(function(){var t=E,e=E,n=E;function W(pa=t,pb=e){var lq=E,lr=E;return[pa,pb,lq,lr,t,e,n]}$(W());$(((pa=n)=>{var lq=E;return[pa,lq,n]})())})()"},
+		{2015, "param-default-free-var", "(function(t){var W=function(pa=t){var lq=E;return[pa,lq,t]};$(W());$(({m(pa=t,pb=t){var lq=E,lr=E;return[pa,pb,lq,lr,t]}}).m())})(E)"},
+		{5, "many-locals", "MANYLOCALS"},
 	}
 	t := ts[x.n("corner", len(ts)-1)]
 	if !x.es(t.es) || x.strict && strings.HasPrefix(t.t, "with") || x.cfg.Goal != "sloppy" && strings.HasPrefix(t.t, "with") {
@@ -1537,10 +1545,27 @@ func (x *g) corner(d int) string {
 	x.feat("corner:" + t.feat)
 	out := t.t
 	x.counter++
+	if out == "MANYLOCALS" {
+		// one scope with more variables than there are one-letter (and then two-letter) names
+		n := []int{60, 170, 170, 300, 300, 1200}[x.n("manylocals", 5)]
+		var decl, sum strings.Builder
+		for i := 0; i < n; i++ {
+			if i > 0 {
+				decl.WriteString(",")
+				sum.WriteString("+")
+			}
+			fmt.Fprintf(&decl, "ml%d_%d=%d", x.counter, i, i)
+			fmt.Fprintf(&sum, "ml%d_%d", x.counter, i)
+		}
+		return "$((function(){var " + decl.String() + ";return " + sum.String() + "})())"
+	}
 	out = strings.ReplaceAll(out, "V", fmt.Sprintf("cv%d", x.counter))
 	out = strings.ReplaceAll(out, "W", fmt.Sprintf("cw%d", x.counter))
 	for strings.Contains(out, "UNDEFNULL") {
 		out = strings.Replace(out, "UNDEFNULL", x.pick("undefnull", []string{"null", "void 0", "0", "\"\""}), 1)
+	}
+	for strings.Contains(out, "LIT") {
+		out = strings.Replace(out, "LIT", x.numLit(), 1)
 	}
 	for strings.Contains(out, "E") {
 		i := strings.Index(out, "E")
